@@ -10,6 +10,7 @@ import (
 	"github.com/buildbuildio/pebbles/gqlerrors"
 	"github.com/buildbuildio/pebbles/planner"
 	"github.com/buildbuildio/pebbles/requests"
+	"github.com/buildbuildio/pebbles/verifhook"
 	"github.com/gobwas/ws/wsutil"
 )
 
@@ -126,24 +127,33 @@ func (se *subscriptionEntry) prepareResponse(resp *requests.Response) *requests.
 }
 
 func (se *subscriptionEntry) Close() {
+	verifhook.At("se.Close.enter")
 	se.TryLock()
+	verifhook.At("se.Close.afterTryLock")
 	isClosed := se.isClosed
 	se.Unlock()
+	verifhook.At("se.Close.afterRead")
 	if isClosed {
 		return
 	}
+	verifhook.At("se.Close.beforeSend")
 	se.closeCh <- struct{}{}
+	verifhook.At("se.Close.afterSend")
 }
 
 func (se *subscriptionEntry) Listen(conn net.Conn) {
 	defer func() {
+		verifhook.At("se.Listen.deferEnter")
 		se.queryerCloseCh <- struct{}{}
+		verifhook.At("se.Listen.beforeLock")
 		se.Lock()
 		defer se.Unlock()
+		verifhook.At("se.Listen.beforeCloseChannels")
 		close(se.queryerCloseCh)
 		close(se.closeCh)
 		close(se.respCh)
 		se.isClosed = true
+		verifhook.At("se.Listen.closed")
 	}()
 
 	for {
@@ -161,10 +171,13 @@ func (se *subscriptionEntry) Listen(conn net.Conn) {
 			if err != nil {
 				return
 			}
+			verifhook.At("se.Listen.beforeWrite")
 			if err := wsutil.WriteServerText(conn, bResp); err != nil {
 				return
 			}
+			verifhook.At("se.Listen.afterWrite")
 		case <-se.closeCh:
+			verifhook.At("se.Listen.gotClose")
 			return
 		}
 
